@@ -713,12 +713,19 @@ class BaseConverter:
     def structure_attrs_fromtuple(self, obj: tuple[Any, ...], cl: type[T]) -> T:
         """Load an attrs class from a sequence (tuple)."""
         conv_obj = []  # A list of converter parameters.
+        kw_obj = {}  # Keyword-only parameters.
         for a, value in zip(fields(cl), obj):
+            if not a.init:
+                # Not an `__init__` argument; it still occupies a position.
+                continue
             # We detect the type by the metadata.
             converted = self._structure_attribute(a, value)
-            conv_obj.append(converted)
+            if a.kw_only:
+                kw_obj[getattr(a, "alias", a.name)] = converted
+            else:
+                conv_obj.append(converted)
 
-        return cl(*conv_obj)
+        return cl(*conv_obj, **kw_obj)
 
     def _structure_attribute(self, a: Attribute | Field, value: Any) -> Any:
         """Handle an individual attrs attribute."""
